@@ -144,7 +144,10 @@ MUTANTS = {
     ],
     'C20': [
         # (removed: 'due-window-zero' only makes events fire on time instead of up to 5 min early)
-        dict(name='due-window-excludes-late-wakeup', file=S, old="                if ts <= 300.0:", new="                if 0.0 <= ts <= 300.0:"),
+        dict(name='due-window-excludes-late-wakeup', file=S, old="                if ts > 300.0:\n                    delay.append(ts)\n", new="                if not 0.0 <= ts <= 300.0:\n                    delay.append(max(ts, 3600.0))\n"),
+        dict(name='defer-forgets-fired-occurrence', file=S, old="                if fired.get(i) != occurrence:\n", new="                if True:\n"),
+        dict(name='defer-no-rearm-after-firing', file=S, old="                if now < again:\n", new="                if False:\n"),
+        dict(name='defer-skips-nodes-that-ran', file=S, old="        if any(job is t for job in que):\n            delay.append(60.0)\n            continue\n", new="        if any(job is t for job in que) or t.get('status') == State.waiting:\n            delay.append(60.0)\n            continue\n"),
         dict(name='dow-offset-off-by-one', file=S, old="    today = now.isoweekday() - 1\n", new="    today = now.isoweekday()\n"),
         dict(name='booted-cleared-by-build', file=S, old="    dawgie.pl.schedule.que = []\n    dawgie.pl.schedule.per = []\n    log.info('build() - computing version differences')", new="    dawgie.pl.schedule.que = []\n    dawgie.pl.schedule.per = []\n    del booted[:]\n    log.info('build() - computing version differences')"),
     ],
